@@ -14,7 +14,7 @@ from .mutator_utils import Simplification
 
 
 def is_quantifier(node):
-    return node.has_ident() and node.get_ident() in ['exists', 'forall']
+    return is_operator_app(node, 'exists') or is_operator_app(node, 'forall')
 
 
 def make_and(children):
